@@ -14,7 +14,11 @@ import (
 type Builder struct {
 	ctx context.Context
 	*gsmsg.Builder
-	topic           Topic
+	topic Topic
+	// allocated is the number of bytes reserved with the allocator for the data in this
+	// message (block data and extension data); it is what gets released when the message is
+	// sent, fails or is discarded
+	allocated       uint64
 	responseStreams map[graphsync.RequestID]io.Closer
 	subscribers     map[graphsync.RequestID]notifications.Subscriber
 	blockData       map[graphsync.RequestID][]graphsync.BlockData
@@ -91,7 +95,7 @@ func (b *Builder) build(publisher notifications.Publisher) (gsmsg.GraphSyncMessa
 		},
 		ctx:             b.ctx,
 		topic:           b.topic,
-		msgSize:         b.BlockSize(),
+		msgSize:         b.allocated,
 		responseStreams: b.responseStreams,
 	}, nil
 }
